@@ -45,7 +45,8 @@ SubRand(i, muts) ==
 GenRand(i, signers) ==
   [op |-> "GenCerts", k |-> RE(CertKeys \cup {"kx"}), nid |-> RE(NodeIds \cup {NONE}), order |-> RE(Perms(CertKeys)),
    nsig |-> RE(signers), hasState |-> RE(BOOLEAN), ssig |-> RE(signers \cup {NONE}), skip |-> RE({FALSE, FALSE, FALSE, TRUE}),
-   reuse |-> RE({FALSE, FALSE, TRUE})]    \* the nonce of the previous request of the history presented again (must not matter)
+   reuse |-> RE({FALSE, FALSE, TRUE}),
+   lg |-> RE({"none", "none", "trace"})]       \* the caller's options carry a logger at trace level (must not matter)
 RotRand(i, srcs, nonces) ==
   [op |-> "Rotate", k |-> RE(CertKeys), nid |-> RE(NodeIds \cup {NONE}), order |-> RE(Perms(CertKeys)),
    src |-> RE(srcs), which |-> RE({"cur", "cur", "cur", "prev", "prev", "gone"}), gsrv |-> 0, genc |-> NONE, k2 |-> RE(CertKeys), e2 |-> RE(EncKeys), n2 |-> RE(nonces),
